@@ -412,6 +412,13 @@ def run(R):
                 okm = term_contains(a0, lambda x: x and x[0] == 'variant' and x[2] == 'Some' and term_contains(x, lambda y: is_call(y, name='poll_next')))
             else:
                 okm = arg_root(strip_refs(a0)) is not None
+        if not news:
+            # the constructor handed to Option::map as a function: ready!(inner.poll_next(cx)).map(HealthCheckResponse::new).map(Ok)
+            for fb in fam_pn:
+                for bb, t in fb.calls(name='map'):
+                    fn_args = [(a_.get('k') or {}).get('fn') or '' for a_ in t['args'] if isinstance(a_, dict)]
+                    if any(re.search(r'HealthCheckResponse>?::new$', f_) for f_ in fn_args) and 'Option' in (t.get('fn') or '') and term_contains(fb.origin(t['args'][0]), lambda y: is_call(y, name='poll_next')):
+                        okm = True
         # every Some(status) of the inner stream becomes an item: no path from the Some arm of the inner poll to Pending / nothing
         R.check(okm, 'C18.R3', 'stream:maps-each-status', site(pn), 'each status yielded by the inner stream is mapped to Ok(HealthCheckResponse::new(status))')
 
